@@ -709,6 +709,10 @@ fn cut_run(r: &mut Rng, run: &[Atom], policy: CutPolicy, dp: DrainPolicy, out: &
             CutPolicy::EveryChar => i + 1,
         };
         let s: String = chars[i..end].iter().map(|c| c.0).collect();
+        if policy == CutPolicy::Mixed && r.chance(1, 40) {
+            // an empty call is a legal call
+            out.push(Event::FeedStr { s: String::new(), drain: gen_drain(r, dp) });
+        }
         if pol == CutPolicy::FeedLoop {
             out.push(Event::Feed { s });
         } else {
